@@ -715,6 +715,19 @@ func Join(locs ...Location) Location {
 		list.Push(loc, true)
 	}
 
+	// A part that absorbs the site before it can end up next to a part it
+	// reduces with as well: repeat the reduction until nothing changes.
+	for n := list.Len(); n > 1; n = list.Len() {
+		next := LocationList{}
+		for _, loc := range list.Slice() {
+			next.Push(loc, true)
+		}
+		list = next
+		if list.Len() == n {
+			break
+		}
+	}
+
 	switch list.Len() {
 	case 0:
 		panic("Join without arguments is not allowed")
